@@ -174,7 +174,7 @@ def liveStep (s : St) (f : List String) (impl : String) : St × String × Verdic
               else ({ s with lastKey := "" }, expStr, .fail)
           | none => ({ s with lastKey := "" }, expStr, .fail)
       | _ => ({ s with lastKey := "" }, expStr, .fail)
-  | ["live_page", filter, addrs, o, size, k] =>
+  | ["live_page", filter, addrs, o, size, k] | ["live_pagev", filter, addrs, o, size, k] =>
       if s.lastKey != filter ++ " " ++ addrs ++ " " ++ o then (s, "bad-op: no accepted live_list for this query", .unknown) else
       match nat? size, nat? k with
       | some size, some k =>
